@@ -80,12 +80,12 @@ func (g *schemaGenerator) generateReferencedType(t *schemas.Type) (codegen.Type,
 	}
 
 	if t.Ref == "#" {
-		if schemaOutput, ok := g.outputs[g.schema.ID]; ok {
-			if decl, ok := schemaOutput.declsBySchema[t]; ok {
-				if decl != nil {
-					return decl.Type, nil
-				}
-			}
+		// A reference to the document root: use the root type's declaration, which
+		// is registered before its fields are generated. It is necessarily a
+		// cycle, so it must be wrapped in a pointer.
+		rootType := (*schemas.Type)(g.schema.ObjectAsType)
+		if decl, ok := g.output.declsBySchema[rootType]; ok && decl != nil {
+			return codegen.WrapTypeInPointer(&codegen.NamedType{Decl: decl}), nil
 		}
 
 		return codegen.EmptyInterfaceType{}, nil
